@@ -55,6 +55,8 @@ def main():
         if own:
             # a quick look with the seed's own check only: print, do not overwrite the matrix fields
             print("%s own-check=%s %s %s (%.0fs)" % (sid, "CAUGHT" if caught else "clean", json.dumps(caught)[:400], json.dumps(noted)[:300] + json.dumps(errors)[:300], time.time() - t_all), flush=True)
+            meta["own_check_at_default_budget"] = {"runs": int(runs) if runs else "quick default", "caught": bool(caught), "detail": caught.get(meta["property"], {}), "noted": noted.get(meta["property"], [])}
+            json.dump(meta, open(os.path.join(d, "meta.json"), "w"), indent=1)
             continue
         meta["checks_run"] = checks
         meta["caught_by"] = caught
